@@ -273,8 +273,9 @@ class Obligation:
 
 class LoopSpec:
     def __init__(self, invariant=(), decreases=None, kind=None, var=None, modifies_fields=(), modifies_roots=(),
-                 ghost_update=None, types=None, modifies_ghost=(), peel=0):
+                 ghost_update=None, types=None, modifies_ghost=(), peel=0, convert=None):
         self.types = dict(types or {})
+        self.convert = dict(convert or {})  # name -> fn(state, value): representation change applied before the loop
         self.modifies_ghost = list(modifies_ghost)
         self.peel = peel
         self.invariant = list(invariant)
@@ -678,6 +679,18 @@ class Executor:
         ev = Evaluator(self, st)
         # desugar for-range
         it = None
+        if kind == "for" and isinstance(n.iter, ast.Call) and isinstance(n.iter.func, ast.Name) and n.iter.func.id == "zip" \
+                and isinstance(n.target, ast.Tuple) and len(n.target.elts) == len(n.iter.args) and all(isinstance(e, ast.Name) for e in n.target.elts):
+            # for a, b in zip(X, Y): body   ==>   for __zi in range(min(len(X), len(Y))): a = X[__zi]; b = Y[__zi]; body
+            src = "for __zi in range(min(" + ", ".join(f"len({ast.unparse(a)})" for a in n.iter.args) + ")):\n" + \
+                  "".join(f"    {t.id} = {ast.unparse(a)}[__zi]\n" for t, a in zip(n.target.elts, n.iter.args)) + "    pass\n"
+            new = ast.parse(src).body[0]
+            for x in ast.walk(new):
+                x.lineno = n.lineno
+                x.col_offset = n.col_offset
+            new.body = new.body[:-1] + n.body
+            self.loop_ordinals[id(new)] = ordinal
+            return self._loop(new, st, k, start_override)
         if kind == "for":
             if not (isinstance(n.iter, ast.Call) and isinstance(n.iter.func, ast.Name) and n.iter.func.id == "range"):
                 raise Outside("for loop over a non-range")
@@ -699,6 +712,9 @@ class Executor:
             it = (n.target.id, lo, hi, stp)
             st.env[n.target.id] = lo
             st.env["__lo"], st.env["__hi"] = lo, hi
+        for name, fn in spec.convert.items():
+            if name in st.env:
+                st.env[name] = fn(st, st.env[name])
         # 1. invariant on entry
         for label, inv in labelled(spec.invariant, "inv"):
             self.oblige(st, self.spec(st, inv), f"{lab}.{label}.entry", "inv", n.lineno)
@@ -709,7 +725,9 @@ class Executor:
         hst = st.copy()
         for name in assigned:
             if name in hst.env:
-                if name in spec.types:
+                if name in spec.types and callable(spec.types[name]):
+                    hst.env[name] = spec.types[name](hst, hst.env[name])
+                elif name in spec.types:
                     hst.env[name] = fresh(name, spec.types[name])
                 else:
                     hst.env[name] = self._havoc_like(hst, hst.env[name], name)
@@ -924,6 +942,14 @@ class Evaluator:
                 return self.ex.contract.consts[dotted]
             return Builtin(dotted)
         o = self.eval(n.value)
+        if hasattr(o, "sym_getattr"):
+            return o.sym_getattr(n.attr, self, n)
+        if isinstance(o, Prod) or is_z3(o):
+            h = self.ex.contract.handlers.get("attr_any")
+            if h:
+                r = h(self.ex, self.st, o, n.attr, n, self)
+                if r is not NotImplemented:
+                    return r
         if isinstance(o, Obj):
             key = (o.oid, n.attr)
             if key in self.st.fields:
@@ -933,6 +959,8 @@ class Evaluator:
                 return h(self.ex, self.st, o, n)
             return Method(o, n.attr)
         if isinstance(o, Arr):
+            if ("arr." + n.attr) in self.ex.contract.handlers:
+                return Method(o, n.attr)
             if n.attr == "real":
                 return o
             if n.attr in ("conj",):
@@ -956,6 +984,11 @@ class Evaluator:
             return Method(o, n.attr)
         if isinstance(o, list):
             return Method(o, n.attr)
+        h = self.ex.contract.handlers.get("attr_any")
+        if h:
+            r = h(self.ex, self.st, o, n.attr, n, self)
+            if r is not NotImplemented:
+                return r
         raise Outside(f"attribute .{n.attr} of {type(o).__name__}")
 
     # -- operators -------------------------------------------------------------------------
@@ -1215,6 +1248,11 @@ class Evaluator:
             if isinstance(n.slice, ast.Slice):
                 return self.slice_view(base, n.slice, n)
             if isinstance(n.slice, ast.Tuple):
+                e = n.slice.elts
+                if len(e) == 2 and isinstance(e[0], ast.Constant) and e[0].value is Ellipsis and isinstance(e[1], ast.Slice) \
+                        and getattr(self.ex.contract, "batched_last_axis", False):
+                    # x[..., a:b] on a tensor whose leading (batch) axes are carried implicitly: slice of the last axis
+                    return self.slice_view(base, e[1], n)
                 raise Outside("multi-dimensional subscript of a 1-D array")
             i = self.eval(n.slice)
             j = self.norm_index(base, i, n)
@@ -1222,6 +1260,8 @@ class Evaluator:
         if is_z3(base) and z3.is_array(base):
             i = self.eval(n.slice)
             return z3.Select(base, Z(i))
+        if hasattr(base, "sym_getitem"):
+            return base.sym_getitem(n.slice, self, n)
         raise Outside(f"subscript of {type(base).__name__}")
 
     def norm_index(self, arr, i, n):
@@ -1270,6 +1310,8 @@ class Evaluator:
             return self.ex.call_method(f, self.st, args, kwargs, n, self)
         if isinstance(f, SpecFn):
             return f.fn(self, *args, **kwargs)
+        if isinstance(f, PyCallable):
+            return f.fn(self, args, kwargs, n)
         raise Outside(f"call of {type(f).__name__}")
 
     def e_Lambda(self, n):
@@ -1308,6 +1350,13 @@ class Method:
 
 
 class SpecFn:
+    def __init__(self, fn):
+        self.fn = fn
+
+
+class PyCallable:
+    """a value that is called as fn(evaluator, args, kwargs, node) - used by contract-side object models"""
+
     def __init__(self, fn):
         self.fn = fn
 
@@ -1427,12 +1476,11 @@ def Executor_call_method(self, m, st, args, kwargs, node, ev):
         cnt = self.call_counts.get(key, 0)
         return h(self, st, o, args, kwargs, node, ev)
     if isinstance(o, Arr):
+        h = self.contract.handlers.get("arr." + m.name)
+        if h:
+            return h(self, st, o, args, kwargs, node, ev)
         if m.name == "conj":
             return o.with_(conj=not o.conj)
-        if m.name == "astype" or m.name == "copy":
-            h = self.contract.handlers.get("arr." + m.name)
-            if h:
-                return h(self, st, o, args, kwargs, node, ev)
         raise Outside(f"array method {m.name}")
     if isinstance(o, Opaque):
         h = self.contract.handlers.get("opaque." + m.name)
